@@ -24,7 +24,7 @@ class C17(Prop):
     level = "exploration"
     tiers = {
         "quick": [("default", 360000), ("burst", 180000)],
-        "thorough": [("default", 7200000), ("burst", 3600000)],
+        "thorough": [("default", 7200000), ("burst", 3600000), ("deep", 300000)],
     }
     rule_text = (
         "one case = one generated driver-op list (<=40 ops over enqueue/enqueue-many/finish/finish(error)/"
@@ -40,12 +40,14 @@ class C17(Prop):
     }
 
     def sim_options(self, profile):
-        return {"max_boundaries": 4000}
+        return {"max_boundaries": 20000}
 
     # ------------------------------------------------------------------------------------------
     def generate(self, sim, profile):
         s = sim.source
-        if profile == "burst":
+        if profile == "deep":
+            n = 10 + s.geometric(140, 40, "nops")
+        elif profile == "burst":
             n = 2 + s.geometric(38, 6, "nops")
         else:
             n = 1 + s.geometric(39, 9, "nops")
@@ -61,6 +63,8 @@ class C17(Prop):
         init_vals = [fresh() for _ in range(initial)]
         # weights: enq, enqmany, start, cancel_recv, finish, finish_err, cancel_q
         weights = (6, 2, 4, 3, 1, 1, 1) if profile == "default" else (8, 3, 4, 5, 1, 0, 0)
+        if profile == "deep":
+            weights = (10, 3, 4, 4, 0, 0, 0)  # long histories: the queue stays open until the tail
         for _ in range(n):
             k = s.weighted(weights, "op")
             if k == 0:
